@@ -81,7 +81,7 @@ def _run(segment):
     """Build and fire the driver actor of an extraction segment (its single head worker)."""
     visitor = _Workers()
     segment.accept(visitor)
-    return [r[0] for r in visitor.nodes[0].builder().apply()]
+    return [r.iloc[0] if hasattr(r, 'iloc') else r[0] for r in visitor.nodes[0].builder().apply()]
 
 
 def _load(feed, extract, lo, hi):
@@ -108,6 +108,43 @@ def windows(case):
             for mode, segment in segments.items():
                 rows[mode].append(_run(segment))
     return {'sem': repr(source.extract.ordinal.once), 'rows': rows}
+
+
+def windows_feed(case):
+    """The same consecutive windows through the real alchemy.Feed (its reader and result cache) over a sqlite file; every
+    window of the case shares one process and one (private) cache directory, as consecutive launches of a project do."""
+    import pathlib
+    import shutil
+    import tempfile
+
+    from forml.provider.feed import alchemy as feedmod
+
+    kind = case['kind']
+    tab = table(kind)
+    source = project.Source.query(tab.select(tab.rid, tab.ord), ordinal=tab.ord, once=case['sp'])
+    tmp = pathlib.Path(tempfile.mkdtemp(prefix='c10f_', dir='/var/tmp'))
+    saved = feedmod.Feed.Reader.RESULTS
+    try:
+        engine = sqlalchemy.create_engine(f'sqlite:///{tmp}/db.sqlite')
+        with engine.begin() as conn:
+            ctype = {'integer': 'INTEGER', 'float': 'REAL', 'string': 'TEXT'}[kind]
+            conn.execute(sql.text(f'CREATE TABLE "t" (rid INTEGER, ord {ctype})'))
+            for i, z in enumerate(case['data']):
+                conn.execute(sql.text('INSERT INTO "t" VALUES (:r, :o)'), {'r': i, 'o': _sqlval(kind, embed(kind, z))})
+        engine.dispose()
+        feedmod.Feed.Reader.RESULTS = feedmod.Results(tmp / 'cache')
+        feed = feedmod.Feed(sources={tab: 't'}, connection=f'sqlite:///{tmp}/db.sqlite')
+        rows = {'train': [], 'apply': []}
+        for lo, hi in zip(case['bounds'], case['bounds'][1:]):
+            segments = _load(
+                feed, source.extract, None if lo is None else embed(kind, lo), None if hi is None else embed(kind, hi)
+            )
+            for mode, segment in segments.items():
+                rows[mode].append(sorted(case['data'][int(rid)] for rid in _run(segment)))
+        return {'sem': repr(source.extract.ordinal.once), 'rows': rows}
+    finally:
+        feedmod.Feed.Reader.RESULTS = saved
+        shutil.rmtree(tmp, ignore_errors=True)
 
 
 def _bounds_of(stmt):
@@ -209,6 +246,6 @@ def alias(case):
 
 def observe(case):
     try:
-        return {'windows': windows, 'prepared': prepared, 'train': train, 'alias': alias}[case['t']](case)
+        return {'windows': windows_feed if case.get('via_feed') else windows, 'prepared': prepared, 'train': train, 'alias': alias}[case['t']](case)
     except Exception as err:  # pylint: disable=broad-except
         return {'error': f'{type(err).__name__}: {err}'}
